@@ -476,35 +476,57 @@ func runC12(w *World, c *Check) {
 		c.Missing("C12.framing", "client.sendTCP")
 	} else {
 		ta0 := NewFuncAn(w, tf)
-		put := ta0.Calls(`.*[bB]igEndian.*\.PutUint32`)
-		wr := ta0.Calls(`.*\.Write`)
-		u32 := ta0.Calls(`.*[bB]igEndian.*\.Uint32`)
-		rd := ta0.Calls(`.*\.Read`)
-		rf := ta0.Calls(`io\.ReadFull`)
 		tw := w.Pos(tf.Pos())
+		// Sending: what goes to the connection's Write is BE32(len(request)) at 0:4 followed by the
+		// request — read off the placements of the written buffer, whatever assembles it and
+		// wherever (in sendTCP or in a helper extracted from it).
+		var wrs []string
+		okWr, nConnWrite := false, 0
+		reqName := substParams(tf, "b")
+		for _, dc := range ta0.CallsDeep(`.*\.Write`) {
+			cm := dc.ci.Common()
+			if len(cm.Args) == 0 || strings.Contains(dc.fa.CalleeName(dc.ci), "Buffer") {
+				continue
+			}
+			nConnWrite++
+			ps, total := dc.fa.BufferPlaces(cm.Args[len(cm.Args)-1])
+			wrs = append(wrs, placesString(ps)+" (length "+total+")")
+			if len(ps) == 2 && fullMatch(`BE32\(len\(`+q(reqName)+`\)\)@0:4`, ps[0].String()) && ps[1].What == reqName && ps[1].Off == "4" && total == "4+len("+reqName+")" {
+				okWr = true
+			} else {
+				okWr = false
+				break
+			}
+		}
+		c.Decide(okWr && nConnWrite >= 1, "C12.framing", "client.sendTCP", "length-prefix", tw, "the length header is the big-endian uint32 length of the request in a 4-byte buffer (RFC 4120 §7.2.2)", fmt.Sprintf("written: %v", wrs))
+		c.Decide(okWr && nConnWrite >= 1, "C12.framing", "client.sendTCP", "header-then-request", tw, "what is written is that header followed by exactly the request bytes", fmt.Sprintf("written: %v", wrs))
+		// Receiving: the calls may live in a helper; they are related by SSA identity inside it
+		u32d := ta0.CallsDeep(`.*[bB]igEndian.*\.Uint32`)
+		rdd := ta0.CallsDeep(`.*\.Read`)
+		rfd := ta0.CallsDeep(`io\.ReadFull`)
+		cnd := ta0.CallsDeep(`io\.CopyN`)
+		rctx := ta0
+		if len(u32d) == 1 {
+			rctx = u32d[0].fa
+		}
+		cis := func(ds []deepCall) []ssa.CallInstruction {
+			var out []ssa.CallInstruction
+			for _, d := range ds {
+				if d.fa.Fn == rctx.Fn {
+					out = append(out, d.ci)
+				}
+			}
+			return out
+		}
+		u32, rd, rf, cn := cis(u32d), cis(rdd), cis(rfd), cis(cnd)
 		is4 := func(v ssa.Value) bool {
-			return fullMatch(`local<\[4\]byte>(#\d+)?\[:4\]|make\(\[\]byte, 4\)`, ta0.R.R(v))
+			return fullMatch(`local<\[4\]byte>(#\d+)?\[:4\]|make\(\[\]byte, 4\)`, rctx.R.R(v))
 		}
 		lastArg := func(ci ssa.CallInstruction, i int) ssa.Value {
 			a := ci.Common().Args
 			return a[len(a)-i]
 		}
-		okPut := len(put) == 1 && is4(lastArg(put[0], 2)) && ta0.M(`len\(b\)`, ta0.R.R(lastArg(put[0], 1)))
-		c.Decide(okPut, "C12.framing", "client.sendTCP", "length-prefix", tw, "the length header is the big-endian uint32 length of the request in a 4-byte buffer (RFC 4120 §7.2.2)", fmt.Sprintf("PutUint32 calls: %v", renderCalls(ta0, put)))
-		okWr := false
-		if okPut && len(wr) >= 1 {
-			hdr := stripSlice(lastArg(put[0], 2))
-			for _, ci := range wr {
-				data := lastArg(ci, 1)
-				if call, ok := data.(*ssa.Call); ok {
-					if bi, ok := call.Call.Value.(*ssa.Builtin); ok && bi.Name() == "append" && stripSlice(call.Call.Args[0]) == hdr && ta0.M(`b`, ta0.R.R(call.Call.Args[1])) {
-						okWr = true
-					}
-				}
-			}
-		}
-		c.Decide(okWr, "C12.framing", "client.sendTCP", "header-then-request", tw, "what is written is that header followed by exactly the request bytes", fmt.Sprintf("Write calls: %v", renderCalls(ta0, wr)))
-		okLen := len(u32) == 1 && is4(lastArg(u32[0], 1))
+		okLen := len(u32) == 1 && len(u32d) == 1 && is4(lastArg(u32[0], 1))
 		if okLen {
 			// the buffer decoded is the one a Read filled
 			buf := stripSlice(lastArg(u32[0], 1))
@@ -516,12 +538,12 @@ func runC12(w *World, c *Check) {
 			}
 			okLen = filled
 		}
-		c.Decide(okLen, "C12.framing", "client.sendTCP", "reply-length", tw, "the reply length is the big-endian uint32 of the 4 bytes read from the connection", fmt.Sprintf("Uint32 calls: %v", renderCalls(ta0, u32)))
-		okRF := len(rf) == 1 && fullMatch(`io\.ReadFull\(conn, make\(\[\]byte, .*Uint32\(.*\)\)\)`, ta0.RenderCall(rf[0]))
-		cn := ta0.Calls(`io\.CopyN`)
-		if !okRF && len(rf) == 0 && len(cn) == 1 {
+		c.Decide(okLen, "C12.framing", "client.sendTCP", "reply-length", tw, "the reply length is the big-endian uint32 of the 4 bytes read from the connection", fmt.Sprintf("Uint32 calls: %v", renderCalls(rctx, u32)))
+		connRe := `(conn|@0)`
+		okRF := len(rf) == 1 && len(rfd) == 1 && fullMatch(`io\.ReadFull\(`+connRe+`, make\(\[\]byte, .*Uint32\(.*\)\)\)`, rctx.RenderCall(rf[0]))
+		if !okRF && len(rf) == 0 && len(cn) == 1 && len(cnd) == 1 {
 			// the equivalent that does not pre-allocate: exactly that many bytes copied from the connection into a buffer whose bytes are returned
-			okRF = fullMatch(`io\.CopyN\(local<bytes\.Buffer>(#\d+)?, conn, .*Uint32\(.*\)\)`, ta0.RenderCall(cn[0]))
+			okRF = fullMatch(`io\.CopyN\(local<bytes\.Buffer>(#\d+)?, `+connRe+`, .*Uint32\(.*\)\)`, rctx.RenderCall(cn[0]))
 			// the count is the decoded length itself (identity), not an expression over it
 			if okRF && len(u32) == 1 {
 				n := cn[0].Common().Args[2]
@@ -535,14 +557,23 @@ func runC12(w *World, c *Check) {
 				okRF = n == u32[0].Value()
 			}
 			ret := false
-			for _, rs := range ta0.returnsOf() {
+			for _, rs := range rctx.returnsOf() {
 				if len(rs) == 2 && rs[1] == "nil" && fullMatch(`bytes\.\(\*Buffer\)\.Bytes\(local<bytes\.Buffer>(#\d+)?\)`, rs[0]) {
 					ret = true
 				}
 			}
+			if ret && rctx.Fn != tf {
+				// … and the anchor hands back the helper's bytes
+				ret = false
+				for _, rs := range ta0.returnsOf() {
+					if len(rs) == 2 && rs[1] == "nil" && fullMatch(`bytes\.\(\*Buffer\)\.Bytes\(local<bytes\.Buffer>(#\d+)?\)`, rs[0]) {
+						ret = true
+					}
+				}
+			}
 			okRF = okRF && ret
 		}
-		c.Decide(okRF, "C12.framing", "client.sendTCP", "reply-read-full", tw, "exactly the announced number of bytes is read from the connection (io.ReadFull into a buffer of that length, or io.CopyN of that length) and those bytes are what is returned", fmt.Sprintf("ReadFull calls: %v; CopyN calls: %v", renderCalls(ta0, rf), renderCalls(ta0, cn)))
+		c.Decide(okRF, "C12.framing", "client.sendTCP", "reply-read-full", tw, "exactly the announced number of bytes is read from the connection (io.ReadFull into a buffer of that length, or io.CopyN of that length) and those bytes are what is returned", fmt.Sprintf("ReadFull calls: %v; CopyN calls: %v", renderCalls(rctx, rf), renderCalls(rctx, cn)))
 		ta := NewFuncAn(w, tf)
 		for _, ci := range ta.Calls(`.*\.Read`) {
 			if !strings.Contains(ta.CalleeName(ci), "ReadFull") {
